@@ -144,6 +144,22 @@ def find_dirty_flag_memo(r: Resolver, ci: ClassInfo) -> List[MemoPattern]:
                             srcs |= fields_read(s2.value, me)
                 if clears and caches and srcs:
                     out.append(MemoPattern(ci, "dirty-flag", f, flag, caches, srcs - set(caches) - {flag}, st))
+        # guard-clause spelling:  if not self.<flag>: return ; <recompute> ; self.<flag> = False
+        body = [x for x in f.node.body if not (isinstance(x, ast.Expr) and isinstance(x.value, ast.Constant))]
+        if body and isinstance(body[0], ast.If) and not body[0].orelse and isinstance(body[0].test, ast.UnaryOp) and isinstance(body[0].test.op, ast.Not) \
+                and self_attr(body[0].test.operand, me) is not None and len(body[0].body) == 1 and isinstance(body[0].body[0], ast.Return) and body[0].body[0].value is None:
+            flag = self_attr(body[0].test.operand, me)
+            caches, srcs, clears = [], set(), False
+            for s2 in body[1:]:
+                if isinstance(s2, ast.Assign) and len(s2.targets) == 1:
+                    a = self_attr(s2.targets[0], me)
+                    if a == flag and isinstance(s2.value, ast.Constant) and s2.value.value is False:
+                        clears = True
+                    elif a is not None:
+                        caches.append(a)
+                        srcs |= fields_read(s2.value, me)
+            if clears and caches and srcs and not any(pp.method is f for pp in out):
+                out.append(MemoPattern(ci, "dirty-flag", f, flag, caches, srcs - set(caches) - {flag}, body[0]))
     return out
 
 
@@ -449,8 +465,11 @@ def check_who_member_map(ctx: CheckContext, r: Resolver, ci: ClassInfo, member_m
                 loc = f"{f.module.relpath}:{st.lineno}"
                 if how == "subscript-store":
                     ok, why = _store_guarded_by_clash_loop(f, me, member_map, st)
-                    if ok:
+                    if ok or ok is None:
                         inserter = f
+                    if ok is None:
+                        ctx.info.setdefault("who_undecided", []).append(f"{loc}: {why}")
+                        continue
                     ctx.ob(rule, key, loc, ok, "" if ok else f"{ci.name}.{nm} stores into the member map directly: {why}")
                 elif how == "assign":
                     v = st.value if isinstance(st, (ast.Assign, ast.AnnAssign)) else None
@@ -531,6 +550,30 @@ def _fresh_key_methods(ci: ClassInfo, member_map: str) -> Set[str]:
         if probed and rets and all(isinstance(rt.value, ast.Name) and rt.value.id in probed for rt in rets):
             # the probed variable must not be rebound after the loop
             out.add(nm)
+            continue
+
+        def absent_test(t: ast.AST) -> Optional[str]:
+            if isinstance(t, ast.Compare) and len(t.ops) == 1 and isinstance(t.ops[0], ast.NotIn) and isinstance(t.left, ast.Name) \
+                    and self_attr(t.comparators[0], me) == member_map:
+                return t.left.id
+            return None
+
+        def fresh_return(rt: ast.Return) -> bool:
+            v = rt.value
+            # return k   inside   if k not in self.map:
+            if isinstance(v, ast.Name):
+                for st in ast.walk(f.node):
+                    if isinstance(st, ast.If) and absent_test(st.test) == v.id and any(x is rt for x in st.body):
+                        return True
+                return v.id in probed
+            # return next(c for c in <candidates> if c not in self.map)
+            if isinstance(v, ast.Call) and isinstance(v.func, ast.Name) and v.func.id == "next" and len(v.args) == 1 and isinstance(v.args[0], ast.GeneratorExp):
+                g = v.args[0]
+                if isinstance(g.elt, ast.Name) and any(absent_test(c) == g.elt.id for gen in g.generators for c in gen.ifs):
+                    return True
+            return False
+        if rets and all(fresh_return(rt) for rt in rets):
+            out.add(nm)
     return out
 
 
@@ -545,7 +588,11 @@ class _KeyFlow(Flow):
         return dict(s)
 
     def join(self, a, b):
-        return {k: a.get(k, False) and b.get(k, False) for k in set(a) | set(b)}
+        out = {}
+        for k in set(a) | set(b):
+            x, y = a.get(k, False), b.get(k, False)
+            out[k] = True if (x is True and y is True) else (False if (x is False or y is False) else None)
+        return out
 
     def _probe(self, test: ast.AST) -> Optional[Tuple[str, bool]]:
         """(key var, flagged?) if test is `k in self.map` or `flag and k in self.map`"""
@@ -587,13 +634,14 @@ class _KeyFlow(Flow):
             for t in st.targets:
                 if isinstance(t, ast.Subscript) and self_attr(t.value, self.me) == self.map:
                     k = t.slice.id if isinstance(t.slice, ast.Name) else None
-                    ok = bool(k and s.get(k, False))
+                    ok = s.get(k, False) if k else (None if isinstance(t.slice, ast.Call) else False)
                     self.stores.append((st, ok, k or ast.unparse(t.slice)))
                 if isinstance(t, ast.Name):
                     v = st.value
                     fresh = isinstance(v, ast.Call) and isinstance(v.func, ast.Attribute) and isinstance(v.func.value, ast.Name) \
                         and v.func.value.id == self.me and v.func.attr in self.fresh
-                    s[t.id] = fresh
+                    # a key computed by a call this analysis cannot prove fresh is UNKNOWN (None), not "certainly a raw key"
+                    s[t.id] = True if fresh else (None if (isinstance(v, ast.Call) or isinstance(v, ast.IfExp) and any(isinstance(x, ast.Call) for x in ast.walk(v))) else False)
         return s
 
 
@@ -609,6 +657,8 @@ def _store_guarded_by_clash_loop(f: FuncInfo, me: str, member_map: str, store: a
     fl.run(f.node, {})
     for st, ok, k in fl.stores:
         if st is store:
+            if ok is None:
+                return None, f"key '{k}' is computed by a helper this analysis cannot interpret"
             return ok, ("" if ok else f"key '{k}' is not proven absent from self.{member_map} on every path "
                                     f"(no `while {k} in self.{member_map}` renaming loop or unique-key helper precedes the store)")
     return False, "store not reached by the analysis"
